@@ -233,7 +233,9 @@ pub fn generate(prop: &str, tier: &str, r: &mut Rng, out: &mut Vec<String>) -> G
                 let kind = crate::gen2::KINDS[i % crate::gen2::KINDS.len()];
                 out.push(format!("build {}", crate::gen2::gen_build_args(&mut rr, kind)));
             }
-            GenInfo { rule: "all 10 operation builders and the two raw constructors in rotation, each with a seeded random target URI, job id, payload and a sequence of 0-6 builder calls drawn from the methods that builder has (repeated single-valued setters, accumulating setters with 0-3 items, arbitrary UTF-8 texts and attribute values); non-trivial = distinct case lines that build a request".into(), exhaustive: false }
+            // every request a process creates has a positive request-id, the 65 536th and the 100 000th included
+            out.push(format!("manyreq {}", if thorough { 300_000 } else { 70_000 }));
+            GenInfo { rule: "all 10 operation builders and the two raw constructors in rotation, each with a seeded random target URI, job id, payload and a sequence of 0-6 builder calls drawn from the methods that builder has (repeated single-valued setters, accumulating setters with 0-3 items, arbitrary UTF-8 texts and attribute values, texts of 254-2000 octets, target paths of the shapes CUPS uses and of 230-5000 octets); any positive request-id is accepted (shown as 1); 70 000 requests created in one process must all have a positive request-id; non-trivial = distinct case lines that build a request".into(), exhaustive: false }
         }
         "C09" => {
             let shapes = if thorough { 400 } else { 20 };
@@ -362,7 +364,18 @@ pub fn generate(prop: &str, tier: &str, r: &mut Rng, out: &mut Vec<String>) -> G
                         groups.push([1u8, 2, 4, 5][i % 4]);
                     }
                     groups.push(3);
-                    for mut b in [wide, many, groups] {
+                    // an attribute name of n octets (past 255 / 1023), then a small one
+                    let mut longname = vec![1u8, 1, 0, 2, 0, 0, 0, 1, 1, 0x21];
+                    let nl = (n * 16).min(65535);
+                    longname.extend_from_slice(&(nl as u16).to_be_bytes());
+                    longname.extend(std::iter::repeat(b'n').take(nl));
+                    longname.extend_from_slice(&[0, 4, 0, 0, 0, 7, 0x22, 0, 1, b'b', 0, 1, 1, 3]);
+                    let mut name256 = vec![1u8, 1, 0, 2, 0, 0, 0, 1, 1, 0x21];
+                    let nl2 = 255 + (n % 3); // 255, 256, 257
+                    name256.extend_from_slice(&(nl2 as u16).to_be_bytes());
+                    name256.extend(std::iter::repeat(b'k').take(nl2));
+                    name256.extend_from_slice(&[0, 4, 0, 0, 0, 7, 3]);
+                    for mut b in [wide, many, groups, longname, name256] {
                         let mut rr = r.fork();
                         b.extend_from_slice(&[0xaa, 3, 1, 0xbb]);
                         out.push(line("sync", &[crate::sources::Ev::Data(b.clone())]));
@@ -607,7 +620,12 @@ pub fn generate(prop: &str, tier: &str, r: &mut Rng, out: &mut Vec<String>) -> G
                         if host == "ip" && !thorough && !matches!(ignore, "unset" | "f" | "tf" | "t") {
                             continue;
                         }
-                        for root in ["none", "pem", "der", "unrelated"] {
+                        for root in ["none", "pem", "der", "unrelated", "decoyfirst", "decoylast"] {
+                            // two `ca_cert` calls (a root of the same name but another key, and the correct one): quick
+                            // tier only without setter calls
+                            if root.starts_with("decoy") && !thorough && ignore != "unset" {
+                                continue;
+                            }
                             for cert in ["valid", "wrongname", "expired", "selfsigned", "unknownca"] {
                                 out.push(format!("tlscase {} {} {} {} {} {}", be, client, ignore, root, cert, host));
                                 // the same target written https:// (quick: without setter calls and with one opt-out)
@@ -619,7 +637,7 @@ pub fn generate(prop: &str, tier: &str, r: &mut Rng, out: &mut Vec<String>) -> G
                     }
                 }
             }
-            GenInfo { rule: "the matrix {blocking, async} x {host given as DNS name, as IP literal} x {sequence of ignore_tls_errors calls: none, f, t, tf, ft, ftf, ttf, tft (IP literal in the quick tier: none, f, t, tf)} x {no extra root, correct root as PEM, as DER, unrelated root} x server certificate {valid for host (SAN DNS:localhost, IP:127.0.0.1), other host name, expired, self-signed, signed by unknown CA} x target written ipps:// or https:// (quick: https only without setter calls and with a single opt-out), for the TLS backend this harness build links (both backends are run and merged by run.py; the correct root in DER is generated so that it ends with an ASCII white-space octet): 640 cells per backend (1280 thorough), each a real handshake against an in-process rustls server with certificates generated by the openssl CLI; every cell is distinct and non-trivial; the sequences of setter calls are a sample (the theorem covers every sequence)".into(), exhaustive: false }
+            GenInfo { rule: "the matrix {blocking, async} x {host given as DNS name, as IP literal} x {sequence of ignore_tls_errors calls: none, f, t, tf, ft, ftf, ttf, tft (IP literal in the quick tier: none, f, t, tf)} x {no extra root, correct root as PEM, as DER, unrelated root, a same-named root with another key before / after the correct one (two ca_cert calls)} x server certificate {valid for host (SAN DNS:localhost, IP:127.0.0.1), other host name, expired, self-signed, signed by unknown CA} x target written ipps:// or https:// (quick: https only without setter calls and with a single opt-out), for the TLS backend this harness build links (both backends are run and merged by run.py; the correct root in DER is generated so that it ends with an ASCII white-space octet): 640 cells per backend (1280 thorough), each a real handshake against an in-process rustls server with certificates generated by the openssl CLI; every cell is distinct and non-trivial; the sequences of setter calls are a sample (the theorem covers every sequence)".into(), exhaustive: false }
         }
         "C04" => {
             let n = if thorough { 200_000 } else { 3_000 };
